@@ -14,7 +14,10 @@ CFG = {
             "threshold, random images <= 4x5 px, through New{Half,Full}BlockImage/Resize/CellSize/Draw on a fake-console Vaxis "
             "incl. too-small boxes and clipping windows. placements: kitty images on a fake console reporting pixel sizes; random "
             "frame histories that keep / move / drop / add placements, draw twice, skip Clear, resize between frames, Render or "
-            "Refresh; graphics sequences parsed from the console output. A case = one #case block; distinct by its op list; "
+            "Refresh; graphics sequences parsed from the console output. Round 2: signed boxes (dimsi: 400 quick / 6000 thorough, one or both "
+            "dimensions negative; kresize with negative boxes), terminals reporting fewer pixels than cells or none (5 reports), kitty images in windows of "
+            "their own (1/8 of the placements) or anywhere on the screen (1/24), every Resize reports the pixel size of the real resizeImage result and the "
+            "real cellPixelSize. A case = one #case block; distinct by its op list; "
             "non-trivial = not a bare state snapshot",
     "trusted_base": [
         "float64 steps of resizeImage are a parameter of the model with the hypothesis Sound (the comparison of the two scale "
